@@ -50,8 +50,10 @@ Definition attr_toks (a : attribute) : value := VToks (i_toks (at_info a)).
 Definition display_path (p : path) : string :=
   (if p_leading p then "::" else "") ++ join "::" (map fst (p_segs p)).
 
-(** the name an attribute is selected by *)
-Definition attr_name (a : attribute) : string := path_to_string (at_path a).
+(** the name an attribute is selected by: its path as darling prints paths; a leading `::` keeps
+    the path distinct from every declared name (declared names never carry one) *)
+Definition attr_name (a : attribute) : string :=
+  (if p_leading (at_path a) then "::" else "") ++ path_to_string (at_path a).
 
 Definition style_name (s : fstyle) : string :=
   match s with StNamed => "Struct" | StTuple => "Tuple" | StUnit => "Unit" end.
@@ -179,51 +181,60 @@ Section Outer.
 
   (** everything after the extractor: shape check, presence checks, the single early return,
       container default, struct literal, post-transform *)
-  Definition finish_outer (b : obase) (self_ty : ty) (ident : option string)
-             (ex : res (pstate * option value)) (shape_err : option err)
-             (magic_before magic_after : list (string * res value)) : res value :=
+  (** the parser state after the attribute layer: extraction, shape check, presence checks *)
+  Definition outer_state (b : obase) (ex : res (pstate * option value)) (shape_err : option err)
+    : res (pstate * option value) :=
     match ex with
     | Ok (st, attrs_val) =>
         let st1 := match shape_err with Some e => push_err e st | None => st end in
         match require_fields sugg sim (ob_fields b) (convs_of (ob_fields b)) st1 with
-        | Ok st2 =>
-            match ps_errs st2 with
-            | _ :: _ =>
-                match multiple (ps_errs st2) with
-                | POk e => Err e
-                | PPanic m => Panic m
-                end
-            | [] =>
-                let cdef :=
-                  if ob_from_ident b
-                  then map_ok Some (interp_fn ("from_ident:" ++ ci_name (ob_c b)) (VStr (match ident with Some s => s | None => "" end)))
-                  else cdefault_value interp_fn (ob_c b) self_ty ident in
-                match cdef with
-                | Ok cd =>
-                    let attrs_init :=
-                      match ob_attrs b with
-                      | None => []
-                      | Some _ => [("attrs", match attrs_val with
-                                             | Some v => Ok v
-                                             | None => Panic "Errors were already checked"
-                                             end)]
-                      end in
-                    match eval_magic (magic_before ++ attrs_init ++ magic_after)%list with
-                    | Ok mvals =>
-                        match init_all interp_fn cd (ps_slots st2) (ob_fields b) with
-                        | Ok kvs => apply_post interp_fn (ci_post (ob_c b)) (Ok (VStruct (mvals ++ kvs)%list))
-                        | Err e => Err e
-                        | Panic m => Panic m
-                        end
+        | Ok st2 => Ok (st2, attrs_val)
+        | Err e => Err e
+        | Panic m => Panic m
+        end
+    | Err e => Err e
+    | Panic m => Panic m
+    end.
+
+  Definition finish_outer (b : obase) (self_ty : ty) (ident : option string)
+             (ex : res (pstate * option value)) (shape_err : option err)
+             (magic_before magic_after : list (string * res value)) : res value :=
+    match outer_state b ex shape_err with
+    | Ok (st2, attrs_val) =>
+        match ps_errs st2 with
+        | _ :: _ =>
+            match multiple (ps_errs st2) with
+            | POk e => Err e
+            | PPanic m => Panic m
+            end
+        | [] =>
+            let cdef :=
+              if ob_from_ident b
+              then map_ok Some (interp_fn ("from_ident:" ++ ci_name (ob_c b)) (VStr (match ident with Some s => s | None => "" end)))
+              else cdefault_value interp_fn (ob_c b) self_ty ident in
+            match cdef with
+            | Ok cd =>
+                let attrs_init :=
+                  match ob_attrs b with
+                  | None => []
+                  | Some _ => [("attrs", match attrs_val with
+                                         | Some v => Ok v
+                                         | None => Panic "Errors were already checked"
+                                         end)]
+                  end in
+                match eval_magic (magic_before ++ attrs_init ++ magic_after)%list with
+                | Ok mvals =>
+                    match init_all interp_fn cd (ps_slots st2) (ob_fields b) with
+                    | Ok kvs => apply_post interp_fn (ci_post (ob_c b)) (Ok (VStruct (mvals ++ kvs)%list))
                     | Err e => Err e
                     | Panic m => Panic m
                     end
                 | Err e => Err e
                 | Panic m => Panic m
                 end
+            | Err e => Err e
+            | Panic m => Panic m
             end
-        | Err e => Err e
-        | Panic m => Panic m
         end
     | Err e => Err e
     | Panic m => Panic m
